@@ -3,7 +3,12 @@
      mode: cur  = block3 as in the source tree (exit test from Generated_nnls.v)
            old  = block3_gen false (exit on nH2 == 0)      new = block3_gen true (repaired exit test)
            spec = optimum by 2^n active-set enumeration (nnls_spec)
-   output line:   R <id> <exit> <iters> <full> H1=<i,..> X <num/den hex ...> T <events>        (spec: S <id> X ... | S <id> NONE) *)
+           block / updown = NnlsModel2.pjv_block / pjv_updown (nnls_normal_block / nnls_normal_block_updown as in the tree)
+           lh   = NnlsModel2.lh_normaleq; the line then reads  <id> lh <n> <tolerance> <min_iterations> <max_iterations> <A> <b>
+     entries may also be written h<hex num>/<hex den> (no size limit)
+   output line:   R <id> <exit> <iters> <full> H1=<i,..> X <num/den hex ...> T <events>        (spec: S <id> X ... | S <id> NONE)
+                  P <id> <exit> <iters> F=<i,..> X <...> T <events>                             (block, updown)
+                  L <id> <exit> <iters> P=<i,..> Z=<i,..> LF=<i|-> SK=<0|1> X <...> T <events>   (lh) *)
 open Nnlsmodel
 
 let rec pos_of_int n = if n = 1 then XH else if n land 1 = 0 then XO (pos_of_int (n lsr 1)) else XI (pos_of_int (n lsr 1))
@@ -24,7 +29,32 @@ let str_of_qc (q : Obj.t) : string =
   let q : q = Obj.obj q in
   let s = match q.qnum with Z0 -> "0" | Zpos p -> hex_of_pos p | Zneg p -> "-" ^ hex_of_pos p in
   s ^ "/" ^ hex_of_pos q.qden
+let hexval c = match c with '0'..'9' -> Char.code c - 48 | 'a'..'f' -> Char.code c - 87 | 'A'..'F' -> Char.code c - 55 | _ -> failwith "bad hex"
+(* positive from a hex string (most significant digit first); None when the value is 0 *)
+let pos_of_hex (s : string) : positive option =
+  let acc = ref None in
+  String.iter (fun c ->
+    let v = hexval c in
+    for j = 3 downto 0 do
+      let bit = (v lsr j) land 1 in
+      acc := (match !acc with
+              | None -> if bit = 1 then Some XH else None
+              | Some p -> Some (if bit = 1 then XI p else XO p))
+    done) s;
+  !acc
+let z_of_hex (s : string) : z =
+  let neg = String.length s > 0 && s.[0] = '-' in
+  let body = if neg then String.sub s 1 (String.length s - 1) else s in
+  match pos_of_hex body with None -> Z0 | Some p -> if neg then Zneg p else Zpos p
 let qc_of_string (s : string) : Obj.t =
+  if String.length s > 0 && s.[0] = 'h' then begin
+    let t = String.sub s 1 (String.length s - 1) in
+    let (a, d) = match String.index_opt t '/' with
+      | Some i -> (String.sub t 0 i, String.sub t (i + 1) (String.length t - i - 1))
+      | None -> (t, "1") in
+    let den = match pos_of_hex d with Some p -> p | None -> failwith "zero denominator" in
+    Obj.repr (q2Qc { qnum = z_of_hex a; qden = den })
+  end else
   let (a, d) = match String.index_opt s '/' with
     | Some i -> (int_of_string (String.sub s 0 i), int_of_string (String.sub s (i + 1) (String.length s - i - 1)))
     | None -> (int_of_string s, 1) in
@@ -38,6 +68,21 @@ let ev_str = function
   | EvBound k -> Printf.sprintf "bound:%d" (int_of_nat k)
   | EvAlpha (k, h, r) -> Printf.sprintf "alpha:%d:%d:%d" (int_of_nat k) (int_of_nat h) (if r then 1 else 0)
 
+let pev_str = function
+  | PvStuck (t, h1, h2) -> Printf.sprintf "stuck:%s:%d:%d" (match t with Z0 -> "0" | Zpos p -> string_of_int (int_of_string ("0x" ^ hex_of_pos p)) | Zneg p -> "-" ^ string_of_int (int_of_string ("0x" ^ hex_of_pos p))) (int_of_nat h1) (int_of_nat h2)
+  | PvH1 i -> Printf.sprintf "h1:%d" (int_of_nat i)
+  | PvH2 i -> Printf.sprintf "h2:%d" (int_of_nat i)
+  | PvIter (k, ninf) -> Printf.sprintf "iter:%d:%d" (int_of_nat k) (int_of_nat ninf)
+  | PvSolve k -> Printf.sprintf "solve:%d" (int_of_nat k)
+let lev_str = function
+  | LvFree (i, nz, np) -> Printf.sprintf "free:%d:%d:%d" (int_of_nat i) (int_of_nat nz) (int_of_nat np)
+  | LvBind (i, nz, np) -> Printf.sprintf "bind:%d:%d:%d" (int_of_nat i) (int_of_nat nz) (int_of_nat np)
+let lh_exit_name = function
+  | LhAllPassive -> "allpassive" | LhWmax -> "wmax" | LhTol -> "tol" | LhEquilibrium -> "equilibrium" | LhMaxIter -> "maxiter"
+  | LhMathFailed -> "mathfailed" | LhSolveFailed -> "singular" | LhInnerFuel -> "innerfuel" | LhOuterFuel -> "outerfuel"
+let rec nat_of_int n = if n <= 0 then O else S (nat_of_int (n - 1))
+let idx_str l = String.concat "," (List.map (fun i -> string_of_int (int_of_nat i)) l)
+
 let rec take n l = if n = 0 then ([], l) else match l with [] -> failwith "short line" | a :: r -> let (x, y) = take (n - 1) r in (a :: x, y)
 let rec rows n k l = if k = 0 then [] else let (r, rest) = take n l in r :: rows n (k - 1) rest
 
@@ -47,6 +92,26 @@ let () =
       let line = input_line stdin in
       match List.filter (fun s -> s <> "") (String.split_on_char ' ' line) with
       | [] -> ()
+      | id :: "lh" :: ns :: tol :: mi :: ma :: rest ->
+          let n = int_of_string ns in
+          let vals = List.map qc_of_string rest in
+          let (av, bv) = take (n * n) vals in
+          let m = rows n n av in
+          let r = lh_normaleq qcA m bv (qc_of_string tol) (nat_of_int (int_of_string mi)) (nat_of_int (int_of_string ma)) in
+          Printf.printf "L %s %s %d P=%s Z=%s LF=%s SK=%d X %s T %s\n" id (lh_exit_name r.lr_exit) (int_of_nat r.lr_iters)
+            (idx_str r.lr_P) (idx_str r.lr_Z) (match r.lr_lf with Some i -> string_of_int (int_of_nat i) | None -> "-")
+            (if lh_skipped qcA r then 1 else 0)
+            (String.concat " " (List.map str_of_qc r.lr_x)) (String.concat " " (List.map lev_str r.lr_trace));
+          flush stdout
+      | id :: (("block" | "updown") as mode) :: ns :: rest ->
+          let n = int_of_string ns in
+          let vals = List.map qc_of_string rest in
+          let (av, bv) = take (n * n) vals in
+          let m = rows n n av in
+          let r = if mode = "block" then pjv_block qcA m bv else pjv_updown qcA m bv in
+          Printf.printf "P %s %s %d F=%s X %s T %s\n" id (exit_name r.pr_exit) (int_of_nat r.pr_iters) (idx_str r.pr_F)
+            (String.concat " " (List.map str_of_qc r.pr_x)) (String.concat " " (List.map pev_str r.pr_trace));
+          flush stdout
       | id :: mode :: ns :: rest ->
           let n = int_of_string ns in
           let vals = List.map qc_of_string rest in
